@@ -195,3 +195,23 @@ def c06(c):
     for k in ('pairs_plain', 'pairs_vegas', 'pairs_multi_channel', 'pairs_source_integrand-return', 'pairs_source_projector-add-value',
               'pairs_source_weight(map)', 'poisoned_evaluations', 'fields_compared', 'pairs_everything_poisoned'):
         c.require(k)
+
+
+@prop('C11',
+      rule="(A) placement cases: a binning layout (one 1-d, one 2-d, or three distributions; 1..50 x 1..20 bins; ranges unit / negative / non-unit / "
+           "tiny / huge / random) probed by 40 single-call iterations, each issuing one projector.add per distribution with a directed coordinate "
+           "(interior, every edge min+k*size, +-1 ulp, x_max, x_min, just below, outside, 1e30 ranges away, +-inf, NaN): the bin that received the "
+           "entry must be allowed by exact arithmetic on (x-min)/size (either neighbour within one rounding error of an edge), x fastest, matching "
+           "mid_points_x/y. (B) whole PLAIN/VEGAS(non-uniform grid)/multi-channel iterations with hash-chosen interior/outside coordinates: per-bin "
+           "exact sums, entry counts, bin calls == N, sum(bins*area) == everything projected inside, and a differential run integrating "
+           "f*indicator(bin)/area with the same random numbers. non-trivial = every placement layout; runs with at least one outside hit; "
+           "distinct = layout / run configuration hash.",
+      assumptions=["a coordinate within 4*eps_T*(|q| + (|x|+|min|)/size) of an edge is ambiguous: either adjacent bin (or outside at the range ends) is accepted",
+                   "float ranges are limited to 1e+-12 so that 1/area^2 stays representable; double/long double use 1e+-30",
+                   "UBSan float-cast-overflow (gcc and clang builds) watches the index computation"])
+def c11(c):
+    c.std([dict(src='c11_bins.cpp', build='asan', shards={'quick': 5, 'thorough': 5}),
+           dict(src='c11_bins.cpp', build='clang', shards={'quick': 2, 'thorough': 5})])
+    for k in ('placements_checked', 'placements_at_an_edge(ambiguous)', 'placements_outside_or_nonfinite', 'bins_checked', 'differential_bins_checked',
+              'runs_plain', 'runs_vegas', 'runs_multi_channel'):
+        c.require(k)
